@@ -66,6 +66,7 @@ int  vrt_cond_broadcast(pthread_cond_t *c);
 int  vrt_cond_signal(pthread_cond_t *c);
 long vrt_syscall(long nr, ...);		/* futex + membarrier; everything else passes through */
 int  vrt_poll(void *fds, unsigned long nfds, int timeout);
+int  vrt_poll_compat(void *fds, unsigned long nfds, int timeout);
 int  vrt_pthread_create(pthread_t *t, const pthread_attr_t *a, void *(*fn)(void *), void *arg);
 int  vrt_pthread_join(pthread_t t, void **ret);
 void vrt_pthread_exit(void *ret) __attribute__((noreturn));
